@@ -583,6 +583,17 @@ fn check_time_encodable(dt: OffsetDateTime) -> Result<(), Error> {
 	}
 }
 
+/// Checks that a value held in a plain `String` field can be written as an `IA5String`.
+fn check_ia5(s: &str) -> Result<(), Error> {
+	if s.is_ascii() {
+		Ok(())
+	} else {
+		Err(Error::InvalidAsn1String(InvalidAsn1String::Ia5String(
+			s.to_string(),
+		)))
+	}
+}
+
 fn dt_strip_nanos(dt: OffsetDateTime) -> OffsetDateTime {
 	// Set nanoseconds to zero
 	// This is needed because the GeneralizedTime serializer would otherwise
